@@ -17,6 +17,9 @@
 (*   layouts: every case hands its record matrices to the code in one of six memory layouts (row-major, column-major,  *)
 (*           transposed, reversed rows, reversed columns, strided) chosen by the content hash; NormLay / LinLay /   *)
 (*           WhLay enumerate all five non-standard layouts explicitly                                             *)
+(*   ranges  (LR): min-max with every range lo..lo+w, lo in {-1,-1/2,0,1,10}, w in {0,1/2,1,2,5}                     *)
+(*   offsets (LO, WO): columns carrying an exactly representable offset 2^30..2^46 (f64) / 2^14, 2^17 (f32); the case  *)
+(*           keeps the un-shifted integers                                                                        *)
 (*   empty : fitting each of the nine estimators on 0 x p data, p = 0..2                           *)
 (* Dimensions that do not change the expected answer (float type, form, targets, weights,          *)
 (* constructor, whether the selection is empty) are derived from a hash of the case content.       *)
@@ -35,11 +38,14 @@ SumQ(s) == IF s = <<>> THEN 0 ELSE Head(s) + SumQ(Tail(s))
 \* content hash of a matrix (entries shifted to be positive)
 Hash(X) == SumQ([i \in 1..Len(X) |-> SumQ([j \in 1..Len(X[i]) |-> (7 * i + 3 * j + 1) * ((X[i][j] % 1000) + 5)])])
 
+\* <<method, lo, hi, rd>>: the min-max range is lo/rd .. hi/rd (rd = 1 or 2)
 LinVariants ==
-  {<<m, 0, 1>> : m \in {"std", "nomean", "nostd", "none", "maxabs", "minmax"}}
-    \cup {<<"minmax", -1, 1>>, <<"minmax", 5, 10>>, <<"minmax", 2, 2>>}
+  {<<m, 0, 1, 1>> : m \in {"std", "nomean", "nostd", "none", "maxabs", "minmax"}}
+    \cup {<<"minmax", -1, 1, 1>>, <<"minmax", 5, 10, 1>>, <<"minmax", 2, 2, 1>>}
+\* every range with lower bound in {-1, -1/2, 0, 1, 10} and width in {0, 1/2, 1, 2, 5} (in halves)
+RangeVariants == {<<"minmax", lo2, lo2 + w2, 2>> : lo2 \in {-2, -1, 0, 2, 20}, w2 \in {0, 1, 2, 4, 10}}
 VarIdx(v) == CASE v[1] = "std" -> 1 [] v[1] = "nomean" -> 2 [] v[1] = "nostd" -> 3 [] v[1] = "none" -> 4
-               [] v[1] = "maxabs" -> 5 [] OTHER -> 6 + v[2] + v[3]
+               [] v[1] = "maxabs" -> 5 [] OTHER -> 26 + v[2] + v[3] + v[4]
 
 ZFix(p) == << [j \in 1..p |-> IF j % 2 = 1 THEN -3 ELSE 5], [j \in 1..p |-> IF j % 2 = 1 THEN 5 ELSE -4], [j \in 1..p |-> 0] >>
 \* unseen row first, then the training rows in reverse order, then the first training row again
@@ -64,12 +70,18 @@ OtherLays == {"f", "t", "revr", "revc", "step"}
 \* sh[j]: column j is expressed in the unit 2^-sh[j] (the harness divides the integers by 2^sh[j], exactly)
 NoSh(p) == [j \in 1..p |-> 0]
 Uniform(sh) == \A j \in 1..Len(sh) : sh[j] = sh[1]
-LinCaseU(X, p, Z, v, sh) ==
-  LET h == Hash(X) + VarIdx(v) + SumQ(sh)
+\* oe[j] > 0: column j carries the offset 2^oe[j] (added by the harness to X and Z, exactly representable; the case
+\* and the specification keep the un-shifted integers).  Offsets fix the float type: 2^30..2^46 f64, 2^14 / 2^17 f32.
+HasOe(oe) == \E j \in 1..Len(oe) : oe[j] > 0
+FtOe(oe, ft) == IF ~HasOe(oe) THEN ft ELSE IF \E j \in 1..Len(oe) : oe[j] > 0 /\ oe[j] < 24 THEN "f32" ELSE "f64"
+LinCaseUO(X, p, Z, v, sh, oe) ==
+  LET h == Hash(X) + VarIdx(v) + SumQ(sh) + SumQ(oe)
       d == Deco(h)
   IN [kind |-> "lin",
-      inp |-> [ft |-> Ft(d, X), form |-> d.form, tw |-> d.tw, wts |-> d.wts, ctor |-> d.ctor, sh |-> sh, lay |-> LayOf(h),
-               meth |-> v[1], lo |-> v[2], hi |-> v[3], p |-> p, X |-> X, Z |-> Z, sel |-> SelFor(Len(X), h)]]
+      inp |-> [ft |-> FtOe(oe, Ft(d, X)), form |-> d.form, tw |-> d.tw, wts |-> d.wts, ctor |-> d.ctor, sh |-> sh, oe |-> oe,
+               lay |-> LayOf(h), meth |-> v[1], lo |-> v[2], hi |-> v[3], rd |-> v[4], p |-> p, X |-> X, Z |-> Z,
+               sel |-> SelFor(Len(X), h)]]
+LinCaseU(X, p, Z, v, sh) == LinCaseUO(X, p, Z, v, sh, NoSh(p))
 LinCase(X, p, Z, v) == LinCaseU(X, p, Z, v, NoSh(p))
 
 V1 == -2..3
@@ -102,7 +114,7 @@ NormCaseU(p, b, m, e) ==                        \* e: every column in the unit 2
       h == Hash(X) + (IF m = "l1" THEN 0 ELSE IF m = "l2" THEN 1 ELSE 2) + e
       d == Deco(h)
   IN [kind |-> "norm",
-      inp |-> [ft |-> d.ft, form |-> d.form, tw |-> d.tw, wts |-> d.wts, meth |-> m, p |-> p, sh |-> [j \in 1..p |-> e], lay |-> LayOf(h),
+      inp |-> [ft |-> d.ft, form |-> d.form, tw |-> d.tw, wts |-> d.wts, meth |-> m, p |-> p, sh |-> [j \in 1..p |-> e], oe |-> NoSh(p), lay |-> LayOf(h),
                X |-> X, Z |-> <<>>, sel |-> IF h % 7 = 0 THEN <<>> ELSE <<6, 5, 4, 3, 2, 1, 6>>]]
 NormCase(p, b, m) == NormCaseU(p, b, m, 0)
 NormCases == UNION {{NormCase(p, b, m) : b \in 0..(Pow6(p) \div 6 - 1), m \in {"l1", "l2", "max"}} : p \in 1..PN}
@@ -111,12 +123,13 @@ NormSmall == UNION {{NormCaseU(p, b, m, 20) : b \in 0..(Pow6(p) \div 6 - 1), m \
 WhMethods == {"pca", "zca", "chol"}
 \* f32 only where the conditioning is that of the integer lattice: one common unit (a power of two scales every
 \* intermediate result exactly); a small-unit column next to a unit column (condition number 2^28) only in f64
-WhCaseU(X, p, Z, m, sh) ==
-  LET h == Hash(X) + (IF m = "pca" THEN 0 ELSE IF m = "zca" THEN 1 ELSE 2) + SumQ(sh)
+WhCaseUO(X, p, Z, m, sh, oe) ==
+  LET h == Hash(X) + (IF m = "pca" THEN 0 ELSE IF m = "zca" THEN 1 ELSE 2) + SumQ(sh) + SumQ(oe)
       d == Deco(h)
   IN [kind |-> "wh",
-      inp |-> [ft |-> IF Uniform(sh) THEN Ft(d, X) ELSE "f64", form |-> d.form, tw |-> d.tw, wts |-> d.wts,
-               ctor |-> d.ctor, sh |-> sh, lay |-> LayOf(h), meth |-> m, p |-> p, X |-> X, Z |-> Z, sel |-> SelFor(Len(X), h)]]
+      inp |-> [ft |-> FtOe(oe, IF Uniform(sh) THEN Ft(d, X) ELSE "f64"), form |-> d.form, tw |-> d.tw, wts |-> d.wts,
+               ctor |-> d.ctor, sh |-> sh, oe |-> oe, lay |-> LayOf(h), meth |-> m, p |-> p, X |-> X, Z |-> Z, sel |-> SelFor(Len(X), h)]]
+WhCaseU(X, p, Z, m, sh) == WhCaseUO(X, p, Z, m, sh, NoSh(p))
 WhCase(X, p, Z, m) == WhCaseU(X, p, Z, m, NoSh(p))
 W1 == {WhCase(X, 1, ZFix(1), m) :
          X \in {Y \in UNION {[1..n -> [1..1 -> V1]] : n \in 2..3} : IsSorted(Y) /\ Y[1] # Y[Len(Y)]}, m \in WhMethods}
@@ -168,15 +181,38 @@ WhLay == {WithLay(WhCase(X, 2, ZFix(2), m), lay) :
             X \in {Y \in UNION {[1..n -> [1..2 -> V2]] : n \in 3..NW} : Hash(Y) % (16 * ThinW) = 7 /\ S!FullRank(Y, 2)},
             m \in WhMethods, lay \in OtherLays}
 
+\* min-max ranges: the full product of lower bounds and widths on a 1/ThinS sample of the one-column matrices
+\* (n = 2..3) and on nine 3 x 2 matrices
+LR == {LinCase(X, 1, ZFix(1), v) :
+         X \in {Y \in UNION {[1..n -> [1..1 -> V1]] : n \in 2..3} : IsSorted(Y) /\ Hash(Y) % ThinS = 2}, v \in RangeVariants}
+        \cup {LinCase(X, 2, ZFix(2), v) : X \in {Y \in [1..3 -> [1..2 -> V2]] : Hash(Y) % 81 = 11}, v \in RangeVariants}
+
+\* large offsets.  Linear scalers (the shift-invariant variants: standard, centred only, min-max) with 2^30 (f64): a
+\* backward-stable mean / deviation loses 2^(30-52) relative to the offset, far below the grid.  Whiteners with
+\* 2^30, 2^40, 2^46 (f64) and 2^14, 2^17 (f32), on one column or on both / one of two columns.
+OffVariants == {<<"std", 0, 1, 1>>, <<"nostd", 0, 1, 1>>, <<"minmax", 0, 1, 1>>, <<"minmax", 5, 10, 1>>, <<"minmax", -1, 1, 2>>}
+LO == {LinCaseUO(X, 1, ZFix(1), v, <<0>>, <<30>>) :
+         X \in {Y \in UNION {[1..n -> [1..1 -> V1]] : n \in 2..3} : IsSorted(Y) /\ Hash(Y) % ThinS = 3}, v \in OffVariants}
+        \cup {LinCaseUO(X, 2, ZFix(2), v, <<0, 0>>, oe) :
+                X \in {Y \in [1..3 -> [1..2 -> V2]] : Hash(Y) % 81 = 17}, v \in OffVariants, oe \in {<<30, 30>>, <<0, 30>>}}
+WO == {WhCaseUO(X, 1, ZFix(1), m, <<0>>, <<e>>) :
+         X \in {Y \in UNION {[1..n -> [1..1 -> V1]] : n \in 2..3} : IsSorted(Y) /\ Y[1] # Y[Len(Y)] /\ Hash(Y) % ThinS = 1},
+         m \in WhMethods, e \in {30, 40, 46, 14, 17}}
+        \cup {WhCaseUO(X, 2, ZFix(2), m, <<0, 0>>, oe) :
+                X \in {Y \in UNION {[1..n -> [1..2 -> V2]] : n \in 3..NW} : Hash(Y) % (16 * ThinW) = 9 /\ S!FullRank(Y, 2)},
+                m \in WhMethods, oe \in {<<46, 46>>, <<46, 0>>, <<0, 40>>, <<30, 46>>, <<17, 17>>, <<0, 17>>, <<14, 17>>}}
+
 Estimators == {"std", "nomean", "nostd", "none", "minmax", "maxabs"} \cup WhMethods
 Empty == {[kind |-> "empty",
            inp |-> [ft |-> ft, form |-> IF p = 1 THEN "view" ELSE "owned", tw |-> 0, wts |-> FALSE, ctor |-> "named",
-                    sh |-> [j \in 1..p |-> 0], lay |-> "c", meth |-> m, lo |-> 0, hi |-> 1, p |-> p]] : m \in Estimators, p \in 0..2, ft \in {"f64", "f32"}}
+                    sh |-> [j \in 1..p |-> 0], oe |-> [j \in 1..p |-> 0], lay |-> "c", meth |-> m, lo |-> 0, hi |-> 1,
+                    rd |-> 1, p |-> p]] : m \in Estimators, p \in 0..2, ft \in {"f64", "f32"}}
 
 \* (a disjunction, not one union: TLC then enumerates the eight sets without normalising their union)
 Init == \/ case \in L1 \/ case \in L2 \/ case \in L3 \/ case \in L4 \/ case \in L5 \/ case \in NormCases \/ case \in NormSmall
         \/ case \in W1 \/ case \in W2 \/ case \in W3 \/ case \in W4 \/ case \in W5
         \/ case \in WS1 \/ case \in WS2 \/ case \in WS3 \/ case \in NormLay \/ case \in NormStd \/ case \in LinLay \/ case \in WhLay
+        \/ case \in LR \/ case \in LO \/ case \in WO
         \/ case \in Empty
 Next == UNCHANGED case
 Emit == PrintT("CASE " \o ToJson(case))
